@@ -279,62 +279,7 @@ def check(ctx):
                    f"the middle was popped the counted suffix collides with an existing name, whose AVP stays listed but loses its name "
                    f"(named view and list disagree)", key="fresh")
 
-    # ---- clause 1b: cleanup forgets every name append can have created -------------------------------------------
-    # append names an AVP `<name>_avp` and repeats `<name>_avp__<n>` for an unbounded n; the key filter of cleanup is
-    # evaluated (term interpreter, key = a concrete witness) on names of that shape: each must be selected, `_avps` must not
-    ctx.clause = "1b-cleanup-covers-append-names"
-    from .. import sym as _sy
-    witnesses = ["x_avp", "origin_host_avp", "x_avp__1", "x_avp__9", "x_avp__10", "route_record_avp__123", "x_avp__4567"]
-    for ci in (msg, grp):
-        cl = ctx.need(ci.methods.get("cleanup"), f"{ci.name}.cleanup")
-        selected = {}
-        sources = []
-        def key_name(target, it):
-            # `for k in d` / `for k in d.keys()` / `for k, v in d.items()`: the name that holds the key
-            if isinstance(target, ast.Name):
-                return target.id
-            if isinstance(target, ast.Tuple) and len(target.elts) == 2 and isinstance(target.elts[0], ast.Name) \
-                    and ast.unparse(it).endswith(".items()"):
-                return target.elts[0].id
-            return None
-        for n in walk_no_nested(cl):
-            if isinstance(n, ast.For) and key_name(n.target, n.iter) and "__dict__" in ast.unparse(n.iter):
-                sources.append(("loop", n))
-            elif isinstance(n, (ast.ListComp, ast.GeneratorExp, ast.SetComp)) and len(n.generators) == 1 \
-                    and key_name(n.generators[0].target, n.generators[0].iter) and "__dict__" in ast.unparse(n.generators[0].iter):
-                sources.append(("comp", n))
-        if not sources:
-            ctx.undecided("R-TABLE/cleanup-names", f"{ci.qual}.cleanup", ci.where(cl), "no scan of the attribute map found", key="scan")
-            continue
-        kind, node = sources[0]
-        for w in witnesses + ["_avps", "_loaded", "header"]:
-            it_ = _sy.Interp(fold=lambda e: repo.fold(ci.mod, e), log_calls=True)
-            if kind == "loop":
-                sel = False
-                for p_ in it_.loop_body(node, {key_name(node.target, node.iter): w}):
-                    if any(e[0] == "ecall" and isinstance(e[1], tuple) and e[1][0] == "call" and isinstance(e[1][1], tuple) and e[1][1][0] == "attr"
-                           and e[1][1][2] in ("append", "add") and len(e[1][2]) == 1 and (
-                               e[1][2][0] == w or (isinstance(e[1][2][0], tuple) and e[1][2][0] and e[1][2][0][0] == "tuple"
-                                                   and e[1][2][0][1] and e[1][2][0][1][0] == w)) for e in p_.effects):
-                        sel = True
-                selected[w] = sel
-            else:
-                st_ = _sy.PathState({key_name(node.generators[0].target, node.generators[0].iter): w}, [], [])
-                vals = [it_.truth(it_.ev(c, st_)) for c in node.generators[0].ifs]
-                selected[w] = None if any(v is None for v in vals) else all(vals)
-        missed = [w for w in witnesses if selected.get(w) is False]
-        unknown = [w for w in selected if selected[w] is None]
-        if unknown:
-            ctx.undecided("R-TABLE/cleanup-names", f"{ci.qual}.cleanup", ci.where(node), f"key filter not evaluable for {unknown}", key="filter")
-            continue
-        ctx.decide(not missed, "R-TABLE/cleanup-names", f"{ci.qual}.cleanup", ci.where(node),
-                   "the key filter selects every name append can create (any repeat index)",
-                   f"cleanup's key filter does not select {missed}, names that append creates for repeated AVPs: after cleanup() / "
-                   f"replacing the list those names still refer to AVPs that are no longer listed, and has_avp() answers True for them",
-                   key="covers")
-        ctx.decide(not selected.get("_avps") and not selected.get("_loaded") and not selected.get("header"), "R-TABLE/cleanup-names",
-                   f"{ci.qual}.cleanup", ci.where(node), "the list attribute itself is not treated as a name",
-                   "cleanup's key filter also selects the container's own attributes", key="not_own", nontrivial=False)
+    cleanup_names(ctx, repo, msg, grp)
 
     # ---- clause 4: symmetric arithmetic ---------------------------------------------------------
     ctx.clause = "4-symmetric-length"
@@ -346,40 +291,68 @@ def check(ctx):
             ctx.decide("self.refresh" in calls, "R-SIB/length-arith", f"{msg.qual}.{fname}", msg.where(fn),
                        "length re-derived by refresh()", f"{fname} neither subtracts the AVP's size nor refreshes the length", key="arith")
             continue
-        # statements that compute the new length: from the first use of get_length() to the store
-        body = _enclosing_block(fn, stores[0])
-        i0 = next((i for i, s in enumerate(body) if "self.header.get_length()" in ast.unparse(s)), None)
-        i1 = body.index(stores[0])
-        if i0 is None:
-            ctx.undecided("R-SIB/length-arith", f"{msg.qual}.{fname}", msg.where(fn), "arithmetic not recognised", key="arith")
-            continue
-        seg = [_rewrite_store(s, "self.header.length", "__len") for s in body[i0:i1 + 1]]
-        # the AVP variable
-        av = None
-        for x in ast.walk(ast.Module(body=body[i0:i1 + 1], type_ignores=[])):
-            if isinstance(x, ast.Call) and isinstance(x.func, ast.Attribute) and x.func.attr == "get_length" \
-                    and isinstance(x.func.value, ast.Name):
-                av = x.func.value.id
-        for L, P in ((12, None), (13, 3), (22, 2)):
-            def special(e, L=L, P=P, av=av):
-                t = ast.unparse(e)
-                if t == "self.header.get_length()":
-                    return 100
-                if t in (f"{av}.get_length()", f"len({av})"):
-                    return L
-                if t == f"{av}.get_padding_length()":
-                    return P
-                return NotImplemented
-            for env2, term, val in run_paths(seg, {}, special, None):
-                got = env2.get("__len", UNK)
-                want = 100 - L - (P or 0)
-                if got is UNK:
-                    ctx.undecided("R-SIB/length-arith", f"{msg.qual}.{fname}", msg.where(fn), "new length not evaluable", key=f"arith:{L}:{P}")
-                    continue
-                ctx.decide(got == want, "R-SIB/length-arith", f"{msg.qual}.{fname}", msg.where(stores[0]),
-                           f"removing an AVP of length {L}, padding {P} subtracts {L + (P or 0)}",
-                           f"removing an AVP of length {L} and padding {P} changes the Message Length by {got - 100} instead of "
-                           f"-{L + (P or 0)} (append added {L + (P or 0)})", key=f"arith:{L}:{P}")
+        # on terms: with OLD = self.header.get_length(), L / PAD = the removed AVP's get_length() / get_padding_length(), the value
+        # stored into the Message Length is OLD - L - PAD when the AVP has padding and OLD - L when it has none
+        from .. import sym as _sl
+        OLD, Lx = _sl.S("int:OLD"), _sl.S("int:L")
+        HDRLEN = ("call", ("attr", ("attr", ("name", "self"), "header"), "get_length"), (), ())
+
+        def hk(t):
+            if t == HDRLEN:
+                return OLD
+            if isinstance(t, tuple) and len(t) == 4 and t[0] == "call" and t[3] == ():
+                if isinstance(t[1], tuple) and t[1][0] == "attr" and t[1][2] == "get_length" and t[2] == ():
+                    return Lx
+                if t[1] == ("name", "len") and len(t[2]) == 1:
+                    return Lx
+            return None
+        is_pad = lambda t: isinstance(t, tuple) and len(t) == 4 and t[0] == "call" and isinstance(t[1], tuple) and t[1][0] == "attr" \
+            and t[1][2] == "get_padding_length"
+        loops_ = [lp for lp in walk_no_nested(fn) if isinstance(lp, ast.For) and any(x is stores[0] for x in ast.walk(lp))]
+        itp = _sl.Interp(fold=lambda e: repo.fold(msg.mod, e), hook=hk)
+        try:
+            paths_ = itp.loop_body(loops_[-1], {}) if loops_ else itp.run(strip_doc(fn.body), _sl.PathState({}, [], []))
+        except _sl.TooMany:
+            paths_ = []
+        n_st = 0
+        for p_ in paths_:
+            st_ = [e for e in p_.effects if e[0] == "store" and e[1] == "self.header.length"]
+            if not st_:
+                continue
+            n_st += 1
+            v = st_[-1][2]
+            arg = v[2][0] if isinstance(v, tuple) and v and v[0] == "call" and len(v[2]) == 1 else v
+            has_pad, padt = None, None
+            for c, tv in p_.conds:
+                if is_pad(c):
+                    has_pad, padt = tv, c
+                elif isinstance(c, tuple) and c[0] == "cmp" and c[1] == "Is" and is_pad(c[2]) and c[3] is None:
+                    has_pad, padt = (not tv), c[2]
+                elif isinstance(c, tuple) and c[0] == "cmp" and c[1] == "Gt" and is_pad(c[2]) and c[3] == 0:
+                    has_pad, padt = tv, c[2]
+            delta = _sl.add(arg, OLD, -1)
+            want = _sl.scale(_sl.add(Lx, padt), -1) if has_pad else _sl.scale(Lx, -1)
+            if has_pad is None:
+                # unconditional form: OLD - L - (PAD or 0) and the like
+                pads = set()
+
+                def find(t):
+                    if is_pad(t):
+                        pads.add(t)
+                    elif isinstance(t, tuple):
+                        for x in t:
+                            if isinstance(x, tuple):
+                                find(x)
+                find(arg)
+                ok_ = bool(pads) and _sl.lin_coef(delta, Lx) == -1
+            else:
+                ok_ = delta == want
+            ctx.decide(ok_, "R-SIB/length-arith", f"{msg.qual}.{fname}", msg.where(stores[0]),
+                       f"removing an AVP {'with' if has_pad else 'without'} padding subtracts its length{' + padding' if has_pad else ''}",
+                       f"removing an AVP {'with' if has_pad else 'without'} padding changes the Message Length by `{_sl.show(delta)}` instead of "
+                       f"-(length{' + padding' if has_pad else ''}) (append added exactly that)", key=f"arith:{'pad' if has_pad else 'nopad' if has_pad is False else 'any'}")
+        if n_st == 0:
+            ctx.undecided("R-SIB/length-arith", f"{msg.qual}.{fname}", msg.where(fn), "no path stores a new Message Length", key="arith")
     length_arith_all(ctx, repo, msg)
     # grouped: after removal the data buffer is rebuilt from the remaining members
     gp = ctx.need(grp.methods.get("pop"), "GroupedType.pop")
@@ -580,3 +553,62 @@ def length_arith_all(ctx, repo, msg):
                        f"incremental adjustment uses length + padding of {sorted(avs)}",
                        f"{fname} adjusts the Message Length incrementally but {why}: the length field no longer equals the "
                        f"serialised size when the AVPs involved need padding", key=f"arith:{fname}")
+
+
+def cleanup_names(ctx, repo, msg, grp):
+    # ---- clause 1b: cleanup forgets every name append can have created -------------------------------------------
+    # append names an AVP `<name>_avp` and repeats `<name>_avp__<n>` for an unbounded n; the key filter of cleanup is
+    # evaluated (term interpreter, key = a concrete witness) on names of that shape: each must be selected, `_avps` must not
+    ctx.clause = "1b-cleanup-covers-append-names"
+    from .. import sym as _sy
+    witnesses = ["x_avp", "origin_host_avp", "x_avp__1", "x_avp__9", "x_avp__10", "route_record_avp__123", "x_avp__4567"]
+    for ci in (msg, grp):
+        cl = ctx.need(ci.methods.get("cleanup"), f"{ci.name}.cleanup")
+        selected = {}
+        sources = []
+        def key_name(target, it):
+            # `for k in d` / `for k in d.keys()` / `for k, v in d.items()`: the name that holds the key
+            if isinstance(target, ast.Name):
+                return target.id
+            if isinstance(target, ast.Tuple) and len(target.elts) == 2 and isinstance(target.elts[0], ast.Name) \
+                    and ast.unparse(it).endswith(".items()"):
+                return target.elts[0].id
+            return None
+        for n in walk_no_nested(cl):
+            if isinstance(n, ast.For) and key_name(n.target, n.iter) and "__dict__" in ast.unparse(n.iter):
+                sources.append(("loop", n))
+            elif isinstance(n, (ast.ListComp, ast.GeneratorExp, ast.SetComp)) and len(n.generators) == 1 \
+                    and key_name(n.generators[0].target, n.generators[0].iter) and "__dict__" in ast.unparse(n.generators[0].iter):
+                sources.append(("comp", n))
+        if not sources:
+            ctx.undecided("R-TABLE/cleanup-names", f"{ci.qual}.cleanup", ci.where(cl), "no scan of the attribute map found", key="scan")
+            continue
+        kind, node = sources[0]
+        for w in witnesses + ["_avps", "_loaded", "header"]:
+            it_ = _sy.Interp(fold=lambda e: repo.fold(ci.mod, e), log_calls=True)
+            if kind == "loop":
+                sel = False
+                for p_ in it_.loop_body(node, {key_name(node.target, node.iter): w}):
+                    if any(e[0] == "ecall" and isinstance(e[1], tuple) and e[1][0] == "call" and isinstance(e[1][1], tuple) and e[1][1][0] == "attr"
+                           and e[1][1][2] in ("append", "add") and len(e[1][2]) == 1 and (
+                               e[1][2][0] == w or (isinstance(e[1][2][0], tuple) and e[1][2][0] and e[1][2][0][0] == "tuple"
+                                                   and e[1][2][0][1] and e[1][2][0][1][0] == w)) for e in p_.effects):
+                        sel = True
+                selected[w] = sel
+            else:
+                st_ = _sy.PathState({key_name(node.generators[0].target, node.generators[0].iter): w}, [], [])
+                vals = [it_.truth(it_.ev(c, st_)) for c in node.generators[0].ifs]
+                selected[w] = None if any(v is None for v in vals) else all(vals)
+        missed = [w for w in witnesses if selected.get(w) is False]
+        unknown = [w for w in selected if selected[w] is None]
+        if unknown:
+            ctx.undecided("R-TABLE/cleanup-names", f"{ci.qual}.cleanup", ci.where(node), f"key filter not evaluable for {unknown}", key="filter")
+            continue
+        ctx.decide(not missed, "R-TABLE/cleanup-names", f"{ci.qual}.cleanup", ci.where(node),
+                   "the key filter selects every name append can create (any repeat index)",
+                   f"cleanup's key filter does not select {missed}, names that append creates for repeated AVPs: after cleanup() / "
+                   f"replacing the list those names still refer to AVPs that are no longer listed, and has_avp() answers True for them",
+                   key="covers")
+        ctx.decide(not selected.get("_avps") and not selected.get("_loaded") and not selected.get("header"), "R-TABLE/cleanup-names",
+                   f"{ci.qual}.cleanup", ci.where(node), "the list attribute itself is not treated as a name",
+                   "cleanup's key filter also selects the container's own attributes", key="not_own", nontrivial=False)
